@@ -13,6 +13,12 @@
 (*      (no stale slot): it can connect again;                             *)
 (*  (d) disconnect() never raises, and every networking thread alive when  *)
 (*      it returns has ended by the end of the execution.                  *)
+(*  (e) the error handling of a failed connection does not tear down a      *)
+(*      connection that had been made before the failure occurred (and has  *)
+(*      not been disconnected by anybody): [k |-> "raise", who] marks the   *)
+(*      moment a listener of thread `who` is about to raise, [k |->         *)
+(*      "teardown", by, victim, intr] a disconnect(immediate) issued by the *)
+(*      dying thread `by` while `victim` holds the slot.                    *)
 (* Events: [k |-> "call"|"ret", t, op, r], [k |-> "check", t, active],      *)
 (*   [k |-> "effect", t, what], [k |-> "start", who], [k |-> "io", t],      *)
 (*   [k |-> "disc_point", t] (a disconnect call acquired the lock),         *)
@@ -22,18 +28,23 @@ EXTENDS Naturals, Sequences, FiniteSets, TLC, Json, IOUtils
 
 Traces == JsonDeserialize(IOEnv.TRACE_FILE)
 
-VARIABLES tid, l, alive, lastIo, past, calls, mustEnd, rejected
-vars == <<tid, l, alive, lastIo, past, calls, mustEnd, rejected>>
+VARIABLES tid, l, alive, lastIo, past, calls, mustEnd, rejected,
+          started,      \* every networking thread started so far
+          beforeRaise   \* per thread: the threads that existed when one of its listeners was about to raise
+vars == <<tid, l, alive, lastIo, past, calls, mustEnd, rejected, started, beforeRaise>>
 Ev == Traces[tid].ev
 
 \* calls: function from thread name to [op, active (as checked), effects]
 NoCall == [op |-> "none", active |-> FALSE, checked |-> FALSE, effects |-> 0]
 
 Init == /\ tid \in 1..Len(Traces) /\ l = 1 /\ alive = {} /\ lastIo = "none" /\ past = {} /\ mustEnd = {} /\ rejected = ""
+        /\ started = {} /\ beforeRaise = [t \in {"net1", "net2", "net3", "net4", "net5", "net6", "net7", "net8"} |-> {}]
         /\ calls = [t \in {"u1", "u2", "u3", "u4", "net1", "net2", "net3", "net4", "net5", "net6", "net7", "net8"} |-> NoCall]
 
-Reject(why) == rejected' = why /\ UNCHANGED <<tid, l, alive, lastIo, past, calls, mustEnd>>
+Reject(why) == rejected' = why /\ UNCHANGED <<tid, l, alive, lastIo, past, calls, mustEnd, started, beforeRaise>>
 Adv == l' = l + 1 /\ UNCHANGED <<tid, rejected>>
+KeepE == UNCHANGED <<started, beforeRaise>>
+AdvK == Adv /\ KeepE
 InDom(t) == t \in DOMAIN calls
 
 Step ==
@@ -41,48 +52,57 @@ Step ==
   /\ LET e == Ev[l] IN
      CASE e.k = "call" ->
             IF ~InDom(e.t) THEN Reject("unknown thread")
-            ELSE /\ Adv /\ calls' = [calls EXCEPT ![e.t] = [op |-> e.op, active |-> FALSE, checked |-> FALSE, effects |-> 0]]
+            ELSE /\ AdvK /\ calls' = [calls EXCEPT ![e.t] = [op |-> e.op, active |-> FALSE, checked |-> FALSE, effects |-> 0]]
                  /\ UNCHANGED <<alive, lastIo, past, mustEnd>>
        [] e.k = "check" ->
             IF InDom(e.t) /\ calls[e.t].op \in {"connect", "status"} /\ ~calls[e.t].checked
             THEN IF e.active /\ alive = {}
                  THEN Reject("the object reports an active connection although every networking thread has ended (stale slot)")
-                 ELSE /\ Adv /\ calls' = [calls EXCEPT ![e.t].active = e.active, ![e.t].checked = TRUE]
+                 ELSE /\ AdvK /\ calls' = [calls EXCEPT ![e.t].active = e.active, ![e.t].checked = TRUE]
                       /\ UNCHANGED <<alive, lastIo, past, mustEnd>>
-            ELSE Adv /\ UNCHANGED <<alive, lastIo, past, calls, mustEnd>>
+            ELSE AdvK /\ UNCHANGED <<alive, lastIo, past, calls, mustEnd>>
        [] e.k = "effect" ->
             IF InDom(e.t) /\ calls[e.t].op \in {"connect", "status"}
-            THEN Adv /\ calls' = [calls EXCEPT ![e.t].effects = @ + 1] /\ UNCHANGED <<alive, lastIo, past, mustEnd>>
-            ELSE Adv /\ UNCHANGED <<alive, lastIo, past, calls, mustEnd>>
+            THEN AdvK /\ calls' = [calls EXCEPT ![e.t].effects = @ + 1] /\ UNCHANGED <<alive, lastIo, past, mustEnd>>
+            ELSE AdvK /\ UNCHANGED <<alive, lastIo, past, calls, mustEnd>>
        [] e.k = "ret" ->
             LET c == calls[e.t] IN
             IF c.op \in {"disc", "disc_now"}
             THEN IF e.r # "ok" THEN Reject("disconnect() raised")
-                 ELSE /\ Adv /\ calls' = [calls EXCEPT ![e.t] = NoCall]
+                 ELSE /\ AdvK /\ calls' = [calls EXCEPT ![e.t] = NoCall]
                       /\ UNCHANGED <<alive, lastIo, past, mustEnd>>
             ELSE IF e.r = "InvalidState"
                  THEN IF ~c.active THEN Reject("connect()/status() refused although the connection was not active")
                       ELSE IF c.effects > 0 THEN Reject("a refused connect()/status() disturbed the connection (TCP connect, thread or queued packet)")
-                      ELSE Adv /\ calls' = [calls EXCEPT ![e.t] = NoCall] /\ UNCHANGED <<alive, lastIo, past, mustEnd>>
+                      ELSE AdvK /\ calls' = [calls EXCEPT ![e.t] = NoCall] /\ UNCHANGED <<alive, lastIo, past, mustEnd>>
             ELSE IF e.r \in {"ok", "Refused"}
                  THEN IF c.active THEN Reject("connect()/status() went ahead although a connection was active")
-                      ELSE Adv /\ calls' = [calls EXCEPT ![e.t] = NoCall] /\ UNCHANGED <<alive, lastIo, past, mustEnd>>
+                      ELSE AdvK /\ calls' = [calls EXCEPT ![e.t] = NoCall] /\ UNCHANGED <<alive, lastIo, past, mustEnd>>
             ELSE Reject("connect()/status() raised an unexpected exception")
        [] e.k = "disc_point" ->     \* the disconnect takes effect (it holds the lock): everything alive now must end
-            Adv /\ mustEnd' = mustEnd \cup alive /\ UNCHANGED <<alive, lastIo, past, calls>>
-       [] e.k = "start" -> Adv /\ alive' = alive \cup {e.who} /\ UNCHANGED <<lastIo, past, calls, mustEnd>>
+            AdvK /\ mustEnd' = mustEnd \cup alive /\ UNCHANGED <<alive, lastIo, past, calls>>
+       [] e.k = "start" -> /\ l' = l + 1 /\ UNCHANGED <<tid, rejected>> /\ alive' = alive \cup {e.who} /\ started' = started \cup {e.who}
+                            /\ UNCHANGED <<lastIo, past, calls, mustEnd, beforeRaise>>
        [] e.k = "io" ->     \* the I/O periods of distinct networking threads must be disjoint intervals
             IF e.t \in past
             THEN Reject("two networking threads perform I/O at the same time (their I/O interleaves)")
-            ELSE /\ Adv /\ lastIo' = e.t
+            ELSE /\ AdvK /\ lastIo' = e.t
                  /\ past' = IF lastIo \notin {"none", e.t} THEN past \cup {lastIo} ELSE past
                  /\ UNCHANGED <<alive, calls, mustEnd>>
        [] e.k = "end" ->
-            /\ Adv /\ alive' = alive \ {e.who} /\ mustEnd' = mustEnd \ {e.who}
+            /\ AdvK /\ alive' = alive \ {e.who} /\ mustEnd' = mustEnd \ {e.who}
             /\ UNCHANGED <<calls, lastIo, past>>
        [] e.k = "final" ->
             IF mustEnd # {} THEN Reject("a networking thread alive at a disconnect() never terminated")
-            ELSE Adv /\ UNCHANGED <<alive, lastIo, past, calls, mustEnd>>
+            ELSE AdvK /\ UNCHANGED <<alive, lastIo, past, calls, mustEnd>>
+       [] e.k = "raise" ->
+            /\ l' = l + 1 /\ UNCHANGED <<tid, rejected>>
+            /\ beforeRaise' = IF e.who \in DOMAIN beforeRaise THEN [beforeRaise EXCEPT ![e.who] = started] ELSE beforeRaise
+            /\ UNCHANGED <<alive, lastIo, past, calls, mustEnd, started>>
+       [] e.k = "teardown" ->
+            IF e.by \in DOMAIN beforeRaise /\ e.victim # e.by /\ e.victim \in beforeRaise[e.by] /\ ~e.intr
+            THEN Reject("the error handling of a failed connection tore down a connection that had been made before the failure")
+            ELSE AdvK /\ UNCHANGED <<alive, lastIo, past, calls, mustEnd>>
        [] OTHER -> Reject("unknown event")
 
 Spec == Init /\ [][Step]_vars
